@@ -183,3 +183,29 @@ Theorem C19_refund_order_irrelevant : forall cfg s l', wf_cfg cfg -> Reach cfg s
     /\ forall x, bal s1' x = bal s1 x.
 Proof. exact GapC19b.C19_refund_order_irrelevant. Qed.
 Print Assumptions C19_refund_order_irrelevant.
+
+(* What does not survive a zero-height export (title facet "State survives"): the preparation
+   pauses EVERY context and forgets the batch in flight but keeps the batch counter.
+   (i) a killed context (Completed) comes back Paused, i.e. startable; *)
+Theorem C19_prep_unkills : forall s s' c rc, prep_zero_height s = Some s' ->
+  get c (ctxs s) = Some rc -> c_state rc = Completed ->
+  exists rc', get c (ctxs s') = Some rc' /\ c_state rc' = Paused /\ c_counter rc' = c_counter rc.
+Proof. exact GapC19b.C19_prep_unkills. Qed.
+Print Assumptions C19_prep_unkills.
+
+(* (ii) a one-shot context whose batch was in flight comes back Paused with counter 1 and no pending
+   expiry: the imported state (continued with the prepared bank) violates the context-shape
+   conjunct I_ctx of the invariant, the consumer can start the context and the next EndBlock issues
+   a second batch for it.  Witness on the example history of Proofs/GenesisProofs.v. *)
+Theorem C19_oneshot_not_preserved_by_import :
+  ReachV ex_cfg ex_state /\ prep_zero_height ex_state = Some ex_prep
+  /\ init_genesis 20 0 (export_genesis ex_cfg ex_prep) = Ok GapC19b.ex_si
+  /\ (exists rc, get (78, 0) (ctxs ex_state) = Some rc /\ c_rep rc = false /\ c_counter rc = 1
+        /\ c_state rc = Running)
+  /\ (exists rc, get (78, 0) (ctxs GapC19b.ex_si) = Some rc /\ c_rep rc = false /\ c_counter rc = 1
+        /\ c_state rc = Paused /\ has (78, 0) (expq_h GapC19b.ex_si) = false)
+  /\ ~ I_ctx ex_cfg GapC19b.ex_resumed
+  /\ keys (reqs (run ex_cfg GapC19b.ex_resumed [OStart (78, 0) 112 true; OEndBlock 1]))
+     = [((78, 0), 2, 20, 0)].
+Proof. exact GapC19b.C19_oneshot_not_preserved_by_import. Qed.
+Print Assumptions C19_oneshot_not_preserved_by_import.
